@@ -61,7 +61,7 @@ def _(self, outputId, outputSchema, outputValue, isPublish):
                     and same(event(n0 + 3), ev("callback", self.callback, DatasetPublished(self.worker, outputId, None)))),
             tag="published-bytes-are-the-serialised-value", top=True)
     # a failing step raises (the task fails): then nothing has been announced
-    ensures_raise(forall(int, lambda j: implies(n0 <= j and j < events_len(), ev_name(event(j)) != "callback")), tag="no-announcement-on-failure", top=True)
+    ensures_raise(Exception, forall(int, lambda j: implies(n0 <= j and j < events_len(), ev_name(event(j)) != "callback")), tag="no-announcement-on-failure", top=True)
     may_raise(Exception, isPublish)
     modifies(self.local, "events")
 
